@@ -775,7 +775,14 @@ class C20Engine(_EPBase):
         model = {p: [0.0, 0.0] for p in exp}
         delivered = set()
         capped_nodes = set()
-        st = Stepper(ts, mu, True, cfg, tape, log, res, {"conservation"})
+        try:
+            st = Stepper(ts, mu, True, cfg, tape, log, res, {"conservation"})
+        except (ValueError, NotImplementedError):
+            res["aborted"] = "input-not-accepted"
+            res["digest"] = log.digest()
+            return res
+        if info.get("isolated_intervals"):
+            res["stats"]["probe.star_with_isolated_samples"] += 1
         state = {"viol": None}
 
         def on_delivery(kind, i, fault):
